@@ -129,3 +129,68 @@ func VerifH_C15_Scope() {
 	}
 	vrt.Assert(!strings.Contains(listing, other), "c15.scope.prefix-not-resolved-in-using-module")
 }
+
+
+// VerifH_C15_SamePathText: two leafref paths with byte-identical text, one inside D's
+// grouping (prefix p bound by D's imports) and one written in U (prefix p bound by U's
+// imports, or not at all); each must be resolved where it is written, in either order.
+func VerifH_C15_SamePathText() {
+	uImport := vrt.Choice("u.import", 3) // prefix p in U: 0 -> Y, 1 -> X, 2 unbound
+	usesFirst := vrt.Bool("uses-first")
+	viaTypedef := vrt.Bool("typedef")
+	uImp := ""
+	switch uImport {
+	case 0:
+		uImp = "import y { prefix p; } "
+	case 1:
+		uImp = "import x { prefix p; } "
+	}
+	dBody := "grouping g { leaf gl { type leafref { path \"/p:a\"; } } }"
+	if viaTypedef {
+		dBody = "typedef lr { type leafref { path \"/p:a\"; } } grouping g { leaf gl { type lr; } }"
+	}
+	own := "leaf ul { type leafref { path \"/p:a\"; } } "
+	used := "container c { uses d:g; } "
+	uBody := own + used
+	if usesFirst {
+		uBody = used + own
+	}
+	texts := map[string]string{
+		"x": "module x { namespace 'urn:x'; prefix x; leaf xa { type string; } }",
+		"y": "module y { namespace 'urn:y'; prefix y; leaf ya { type string; } }",
+		"d": "module d { namespace 'urn:d'; prefix d; import x { prefix p; } " + dBody + " }",
+		"u": "module u { namespace 'urn:u'; prefix u; import d { prefix d; } " + uImp + uBody + " }",
+	}
+	ok := uImport != 2
+	vrt.Reach("c15.samepath")
+	ms, err := compileTexts(texts, featSet{}, nil)
+	if err != nil {
+		vrt.Observe("verdict", uImport, usesFirst, err.Error())
+	} else {
+		vrt.Observe("verdict", uImport, usesFirst, "ok")
+	}
+	vrt.Assert((err == nil) == ok, "c15.samepath.verdict")
+	if err != nil {
+		return
+	}
+	wantU := "urn:y"
+	if uImport == 1 {
+		wantU = "urn:x"
+	}
+	check := func(n schema.Node, wantNs, id string) {
+		lr, isLr := n.(schema.Leaf).Type().(schema.Leafref)
+		vrt.Assert(isLr, "c15.samepath.leafref-type")
+		if !isLr {
+			return
+		}
+		listing := lr.Mach().PrintMachine()
+		vrt.Observe("listing", id, listing)
+		other := "urn:y"
+		if wantNs == "urn:y" {
+			other = "urn:x"
+		}
+		vrt.Assert(strings.Contains(listing, wantNs) && !strings.Contains(listing, other), "c15.samepath."+id+"-resolved-where-written")
+	}
+	check(ms.Child("c").Child("gl"), "urn:x", "grouping-path")
+	check(ms.Child("ul"), wantU, "own-path")
+}
